@@ -238,5 +238,6 @@ UNITS = [
         quick=1500, thorough=60000, doc="free-form JSON / Python values"),
     Unit("accepted", check_accepted, strategy=_accepted, quick=400, thorough=15000,
          doc="whatever the checker accepts never makes verify_root / verify_delegation fail outside the documented families"),
-    _cfgunit.unit_under_config(PROPERTY, 'mutated', exclude=()),
+    _cfgunit.unit_under_config(PROPERTY, 'mutated', exclude=(), closed_stdout=True, n_cases=40),
+    _cfgunit.unit_under_config(PROPERTY, 'accepted', exclude=(), n_cases=4),
 ]
